@@ -71,11 +71,13 @@ package canonicalizer
 
 //@ func percentEncodeByte
 //@   requires tr == nil || tr.bs != nil
-//@   ensures (tr != nil && !setHas(tr, b)) ==> result == utf8(b)   [C17]
-//@   ensures (tr == nil || setHas(tr, b)) ==> (len(result) == 3 && result[0] == '%' && result[1] == "0123456789ABCDEF"[b / 16] && result[2] == "0123456789ABCDEF"[b % 16])   [C17]
+//@   ensures result == specEncByte(b, tr == nil || setHas(tr, b))   [C10,C17]
 
 //@ func percentEncode
 //@   requires tr != nil && tr.bs != nil
+//@   ensures result == specEncBytes(s, len(s), bsBits(tr.bs), tr.allBelow, false, true)   [C10,C17 every-byte-encoded-or-kept]
+//@   loop 1 modifies bufv(sb)
+//@   loop 1 invariant bufv(sb) == specEncBytes(s, $i, bsBits(tr.bs), tr.allBelow, false, true)
 
 //@ func decodePercentEncoded
 //@   ensures len(result) <= len(s)   [C02,C17]
